@@ -65,6 +65,15 @@ def expand(block, tier):
             for ty in TYPES:
                 for tok in TOKENS:
                     yield {"k": "default", "f": fj, "q": qi, "type": ty, "tok": tok}
+        # one name deviation: the question's name extends another node's name (repeat 'b', question 'b_count')
+        for qi in qs:
+            for nd in nodes:
+                if nd["i"] == qi:
+                    continue
+                for sfx in ("_count", "x"):
+                    for ty in ("text", "integer"):
+                        for tok in ("now()", "${t0} + 1", "5"):
+                            yield {"k": "default", "f": fj, "q": qi, "type": ty, "tok": tok, "pre": [nd["i"], sfx]}
     else:
         ttypes = ["text"] if tier == "quick" else ["text", "select_one c"]
         for ti in qs:
@@ -85,15 +94,26 @@ def required_outcomes(tier):
     return {"static", "dynamic-model", "dynamic-repeat", "trigger-ok"}
 
 
+def names_for(case):
+    """default names; with a 'pre' deviation the question under test is named <other node's name>_count / <name>x,
+    i.e. that node's name is a string prefix of it"""
+    names = list(NAMES)
+    if case.get("pre") is not None:
+        j, sfx = case["pre"]
+        names[case["q"]] = NAMES[j] + sfx
+    return names
+
+
 def build(case):
     forest = forest_from_json(case["f"])
-    nodes = flatten(forest, NAMES)
+    NAMES_ = names_for(case)
+    nodes = flatten(forest, NAMES_)
     rows = [{"type": "text", "name": "t0", "label": "T0"}]
 
     def rec(f):
         for t in f:
             i = len([r for r in rows if "name" in r]) - 1
-            nm = NAMES[i]
+            nm = NAMES_[i]
             if t[0] == "q":
                 r = {"type": "text", "name": nm, "label": nm}
                 if case["k"] == "default" and i == case["q"]:
